@@ -147,6 +147,7 @@ def shards(tier, seed):
     for tok in ("AC", "HS", "REF"):
         out += dd.seq_shards("plain-" + tok, "A3", len(A3), d[tok], tok)
     out += dd.seq_shards("merge-AC", "A3", len(A3), d["MERGE"], "AC", extra={"merge": True}, prefix_len=1)
+    out += dd.residue_shards("pumped-AC", "pump", "AC", 16)
     out += dd.residue_shards("merge-templates", "mt", "AC", 16, {"edits": 1, "chars": "quick" if tier == "quick" else "thorough"})
     return out
 
@@ -186,6 +187,21 @@ def run_merge(st, part, texts, tok):
                 st.violation(case, f"{lab}: {det} :: tokenizer={tok} text={text!r} history={hist}", label=f"{part}-{lab}")
 
 
+PUMP_FILLERS = [" hello", "; 2 F.2d 2", " Id. at 5.", " Bar at 9,", ". Foo, supra, at 3", " 1 U.S. at 5;", "\n"]
+PUMP_COPIES = [100, 300]
+
+
+def pumped_cases(sh):
+    """A short head (<= 2 fragments) followed by many copies of one filler fragment: long documents whose
+    interesting part is short (size-dependent code paths)."""
+    alpha = A3
+    heads = [""] + list(alpha) + [a + b for a in alpha[:16] for b in alpha[:16]]
+    for head in heads[sh["r"] :: sh["n"]]:
+        for f in PUMP_FILLERS:
+            for n in PUMP_COPIES:
+                yield {"part": sh["part"], "tok": sh["tok"], "text": head + f * n}
+
+
 def run_shard(sh):
     st = Stats()
     if sh.get("merge"):
@@ -198,4 +214,6 @@ def run_shard(sh):
         )
         run_merge(st, sh["part"], dd.sliced(gen, sh["r"], sh["n"]), sh["tok"])
         return st
+    if sh["kind"] == "pump":
+        return dd.run_cases(st, sh["part"], pumped_cases(sh), evaluate, nontrivial=lambda c, t, cs: len(cs) >= 2)
     return dd.run_cases(st, sh["part"], dd.seq_cases(sh, ALPHABETS), evaluate, nontrivial=lambda c, t, cs: len(cs) >= 2)
